@@ -411,6 +411,27 @@ fn main() {
         }
     }
 
+    // ---------------------------------------------------------------- (4b) direction of pagination fields
+    // independent of the baseline: in every Cosmos / IBC / Initia query service the `pagination` field of a
+    // *Request is cosmos.base.query.v1beta1.PageRequest and that of a *Response is PageResponse (the two have
+    // different field sets, so the wrong one silently drops what the peer sent)
+    for m in &schema.messages {
+        let name = m.path.rsplit("::").next().unwrap_or("");
+        for f in m.fields.iter().filter(|f| f.name == "pagination" && f.kind == "message") {
+            o.evaluations += 1;
+            let want = if name.ends_with("Request") {
+                "PageRequest"
+            } else if name.ends_with("Response") {
+                "PageResponse"
+            } else {
+                continue;
+            };
+            if f.ty_abs.rsplit("::").next() != Some(want) {
+                viol(&mut o, "schema.pagination_direction", format!("{}.pagination is typed {} (a {} carries {want})", m.path, f.ty_abs, if want == "PageRequest" { "request" } else { "response" }), json!({"message": m.path, "field": "pagination", "type": f.ty_abs}));
+            }
+        }
+    }
+
     // ---------------------------------------------------------------- (1) per type / field / value round trips
     let included: Vec<&Msg> = schema.messages.iter().filter(|m| m.included).collect();
     if included.len() != shims::SUBJECT_PATHS.len() {
